@@ -11,6 +11,12 @@ NOTE = ("Trusted base: the Go type checker (go/types), go/packages loading of /r
 
 # id -> (technique, level text, design ref)
 CLAIMS = {
+ "C08": ("arm-by-arm token agreement of the two generated subtype checkers under the sema/static name map + inverse switch-table check of the primitive type conversions + sibling agreement of cache-key constructors + SSA shape check of the optional fast path",
+         "Structural necessary conditions: the checker's and the run-time subtype tables decide every simple super type identically, primitive conversions are inverse, the VM's type cache cannot merge distinct types, and the run-time optional fast path unwraps both sides.",
+         "DESIGN.md §4 C08"),
+ "C45": ("inverse/name-agreement check of the primitive type tables (extracted switch tables) + pinned census of the callers of the shared sema.Format*TypeID helpers + must-pass-through of sorting in the set-like ID helpers",
+         "Structural necessary conditions: primitive types map to their own counterparts in every representation, all representations build composite type IDs through one shared formatter, and set-like IDs are sorted before formatting.",
+         "DESIGN.md §4 C45"),
  "C34": ("table composition (AST/SSA): interpreter operation->method, compiler operation->instruction, VM instruction->handler->method with operand order; exhaustiveness of the VM dispatch over instruction types; agreement of native implementations registered per built-in function name",
          "Structural necessary conditions: both engines evaluate each operator with the same value method and operand order, every instruction has a VM handler, and built-in functions are bound to the same native implementation in both engines.",
          "DESIGN.md §4 C34"),
